@@ -10,6 +10,7 @@ different coefficient without an error is a violation.
 from __future__ import annotations
 
 import random
+import re
 import traceback
 from collections import Counter
 
@@ -89,6 +90,8 @@ def gen_cases(tier):
             reacs.append({"reactants": [r.choice(species) for _ in range(r.choice([1, 2, 2]))], "products": [r.choice(species) for _ in range(r.choice([1, 2, 3]))],
                           "idx": j + 1, "tmin": tw[0], "tmax": tw[1], "rate": r.choice(rates), "alpha": 0.0, "beta": 0.0, "gamma": 0.0, "type": 999})
         cases.append({"format": "krome", "src": "krome", "reactions": reacs, "points": pts, "export": True})
+    for i in range(3 if tier == "quick" else 40):
+        cases.append(make_ice_tables_case(random.Random(rng.getrandbits(64))))
     return cases
 
 
@@ -122,7 +125,75 @@ def build(case, work):
     return Network(filelist=str(p), fileformats=fmt, **kw)
 
 
+def make_ice_tables_case(rng):
+    """Native reactions on hh93 grains with USER binding energies / photodesorption yields that differ from the tabulated values: the exported
+    project, re-rendered by another process that knows nothing but the project's own files, carries the same values."""
+    gas = rng.sample(["CO", "H2O", "CH4", "NH3", "CO2", "N2"], rng.randint(2, 4))
+    eb = {"#" + g: round(rng.uniform(900.0, 6000.0), 1) for g in gas if rng.random() < 0.8}
+    if not eb:
+        eb = {"#" + gas[0]: 1234.5}
+    yl = {"#" + g: rng.choice([1e-3, 2.7e-3, 0.05]) for g in gas if rng.random() < 0.5}
+    return {"src": "ice_tables", "format": "naunet", "gas": gas, "eb": eb, "yield": yl, "reactions": [], "export": False}
+
+
+def run_ice_tables(case, ctx):
+    import os, subprocess
+    from naunet import chemistrydata
+    from naunet.network import Network
+    from naunet.reactions.reaction import Reaction
+    from naunet.reactiontype import ReactionType as RT
+    from naunet.species import Species
+    obs, viol = Counter(), []
+    work = ctx.fresh_dir("it")
+    obs["src_ice_tables"] += 1
+    Species.reset()
+    chemistrydata.update_binding_energy(dict(case["eb"]))
+    chemistrydata.update_photon_yield(dict(case["yield"]))
+    rl, i = [], 0
+    for g in case["gas"]:
+        for res, prs, t in (([g], ["#" + g], RT.GRAIN_FREEZE), (["#" + g], [g], RT.GRAIN_DESORB_THERMAL)):
+            i += 1
+            rl.append(Reaction(res, prs, -1, -1, 1.0, 0.0, 0.0, t, idxfromfile=i))
+    try:
+        net = Network(rl, grain_model="hh93")
+        net.export("proj", solver="cvode", method="dense", device="cpu", prefix=str(work), overwrite=True)
+    except Exception as e:
+        return {"status": "violated", "violations": [violation("export_raised", f"ice network with user tables: {type(e).__name__}: {e}", trace=traceback.format_exc()[-600:])], "obs": dict(obs)}
+    proj = work / "proj"
+    def consts():
+        txt = (proj / "src" / "naunet_constants.cpp").read_text()
+        return dict(re.findall(r"double (eb_\w+)\s*=\s*([-+0-9.eE]+);", txt))
+    def rates():
+        return [" ".join(l.split()) for l in (proj / "src" / "naunet_rates.cpp").read_text().splitlines() if "k[" in l]
+    c0, r0 = consts(), rates()
+    for g in case["gas"]:
+        want = case["eb"].get("#" + g)
+        if want is not None and float(c0.get(f"eb_G{g}I", "nan")) != want:
+            viol.append(violation("direct_render_ignores_user_table", f"eb_G{g}I = {c0.get(f'eb_G{g}I')} in the exported sources, user table says {want}"))
+    # re-render from the project's own files in a fresh interpreter (the user tables of this process are not there)
+    env = dict(os.environ, TQDM_DISABLE="1")
+    code = "import sys, logging; logging.disable(logging.CRITICAL)\nfrom pathlib import Path\nfrom verif import clihelp\nrc, o, e = clihelp.run_command('render', '--force', Path('.'))\nsys.exit(3 if rc else 0)\n"
+    cp = subprocess.run([common.PY, "-c", code], cwd=str(proj), env=env, capture_output=True, text=True, timeout=300, stdin=subprocess.DEVNULL)
+    if cp.returncode != 0:
+        obs["rerender_refused_with_error"] += 1          # refused with an error: allowed
+        return {"status": "held", "violations": viol, "obs": dict(obs), "nontrivial": True, "sample": {"source": "ice_tables", "refused": cp.stderr[-200:]}}
+    obs["ice_table_projects_rerendered"] += 1
+    c1, r1 = consts(), rates()
+    if c1 != c0:
+        diff = {k: (c0.get(k), c1.get(k)) for k in sorted(set(c0) | set(c1)) if c0.get(k) != c1.get(k)}
+        viol.append(violation("rate_changed_by_export", f"ice network with user binding energies {case['eb']}: re-rendered by a fresh process the constants are {diff} "
+                              f"(direct, re-rendered)"))
+    if r1 != r0:
+        k = next((i for i, (a, b) in enumerate(zip(r0, r1)) if a != b), -1)
+        viol.append(violation("rate_changed_by_export", f"ice network with user yields {case['yield']}: rate statement {k} differs after export + re-render: "
+                              f"{r0[k][:120] if k >= 0 else len(r0)} vs {r1[k][:120] if k >= 0 else len(r1)}"))
+    return {"status": "violated" if viol else "held", "violations": viol[:6], "obs": dict(obs), "nontrivial": True,
+            "sample": {"source": "ice_tables", "eb": case["eb"], "yield": case["yield"]}}
+
+
 def run_case(case, ctx):
+    if case.get("src") == "ice_tables":
+        return run_ice_tables(case, ctx)
     from naunet.network import Network
     from naunet.species import Species
     obs, viol = Counter(), []
